@@ -8,6 +8,8 @@
      1. property on the Rust output, when the input satisfies the precondition of the theorems
         (FocusCheck.pre_check && focus_wf):
           - no panic                                   else VIOL class=panic-on-wf-input
+          (a fun2core output - case name file:… or gen:… without mutation - outside the precondition
+           is itself a violation: class=translation-output-outside-precondition)
           - uniquified_check / unique_check            else VIOL class=non-unique-binder
           - "focused": the output reads as FsProg (the fs types admit only variables in argument
             positions, so a successful read IS the check)
@@ -68,8 +70,14 @@ Definition focus_case (i r : sexp) : verdict :=
           let mf := focus_prog p in
           let tags := origin_tags name ++ (if pre then " pre" else " nopre") in
           (* 1. the property on the Rust output *)
+          let is_translation :=
+            String.eqb (after "+"%char name) "" &&
+            (String.eqb (before ":"%char name) "file" || String.eqb (before ":"%char name) "gen") in
           let prop : option string * string :=
-            if is_panic ru || is_panic rf then
+            if is_translation && negb pre then
+              (* every fun2core output must lie inside the precondition of the C03 theorems *)
+              (Some "class=translation-output-outside-precondition", "")
+            else if is_panic ru || is_panic rf then
               ((if pre then Some ("class=panic-on-wf-input " ++ trunc 200 (show rf)) else None), " panic")
             else
               match g_cprog ru, g_fsprog rf with
